@@ -313,7 +313,7 @@ func (wd *world) afterMergeCrash(r *sim.R, sc *scenario, want *model.Store, sig 
 			both := append(append([]string(nil), old...), neu...)
 			if dbcheck.DiffRows(both, g) == "" {
 				clause = "day-holds-old-and-merged-data"
-			} else if (strings.Contains(sig, "two directories for one day") || strings.Contains(sig, "backup directory")) {
+			} else if strings.Contains(sig, "two directories for one day") || strings.Contains(sig, "backup directory") {
 				clause = "day-holds-old-and-merged-data" // rows with equal keys from both directories are summed
 			} else if len(g) == 0 {
 				clause = "day-data-hidden"
